@@ -116,7 +116,7 @@ class RecordImpl:
             ret = self._apply(o)
         except (RuntimeError, ValueError, TypeError, IndexError, AttributeError, AssertionError) as e:
             return {"t": "err", "e": type(e).__name__}
-        if self._given is not None and not torch.equal(self._given, self._given_copy):
+        if getattr(self, "_given", None) is not None and not torch.equal(self._given, self._given_copy):
             return {"t": "err", "e": "CallerTensorModified"}
         return ret
 
